@@ -307,7 +307,32 @@ def run(ctx):
                     ctx.violation(f'linked-destination-{driver}-{mode}.json', dict(driver=driver, mode=mode, exit=r.cls, after=show(after), init=show(init), stderr=r.stderr[-300:]),
                                   f'C09: overwriting a destination that has a second hard link with --backup={mode}: expected the old version as {want.decode()}, directory holds {sorted(k.decode() for k in after)} ({driver})')
                 os.unlink(root + '/snap/app.conf')
-    ctx.cov['rule'] = ('a destination with a second hard link; histories: 3-7 invocations over 1-3 names (prefix-related, backup-looking, non-UTF-8, long) with initial backup sets incl. gaps, '
+        # --- ONE run overwriting files of the SAME NAME in different directories, each with its own backup history: every
+        # directory's next number comes from that directory's own listing, and no existing backup is replaced
+        for driver, workers in (('parfile', 1), ('parfile', 4), ('parblock', 2)):
+            for mode in ('numbered', 'auto'):
+                shutil.rmtree(root + '/S', ignore_errors=True); shutil.rmtree(root + '/D', ignore_errors=True)
+                hist = {'a': [1, 2], 'b': [3], 'c': [9], 'd': [] if mode == 'numbered' else [1]}
+                for dn, nums in hist.items():
+                    os.makedirs(f'{root}/S/{dn}'); os.makedirs(f'{root}/D/S/{dn}')
+                    open(f'{root}/S/{dn}/mod.rs', 'wb').write(b'NEW-' + dn.encode() * 20); open(f'{root}/D/S/{dn}/mod.rs', 'wb').write(b'CUR-' + dn.encode())
+                    for k in nums:
+                        open(f'{root}/D/S/{dn}/mod.rs.~{k}~', 'wb').write(b'BK%d-' % k + dn.encode())
+                r = scen.run_xcp(root, ['-r', f'--backup={mode}', '--driver', driver, '--workers', str(workers), 'S', 'D'])
+                ctx.count(f'same_name_other_directory.{mode}.{r.cls}'); ctx.case(('same-name-other-directory', driver, workers, mode), True)
+                bad = None
+                for dn, nums in hist.items():
+                    now = listing(f'{root}/D/S/{dn}')
+                    nxt = (max(nums) + 1) if nums else 1
+                    for k in nums:
+                        if now.get(b'mod.rs.~%d~' % k) != b'BK%d-' % k + dn.encode():
+                            bad = bad or f'{dn}/mod.rs.~{k}~ (an existing backup) was replaced or removed'
+                    if now.get(b'mod.rs.~%d~' % nxt) != b'CUR-' + dn.encode():
+                        bad = bad or f'{dn}/mod.rs: the replaced version is not in mod.rs.~{nxt}~ (directory holds {sorted(x.decode() for x in now)})'
+                if r.cls == '0' and bad:
+                    ctx.violation(f'same-name-dirs-{driver}-{workers}-{mode}.json', dict(driver=driver, workers=workers, mode=mode, exit=r.cls, stderr=r.stderr[-300:], oracle=bad),
+                                  f'C09: one run over four directories each holding mod.rs with its own backups (--backup={mode}, {driver}, {workers} workers): {bad}')
+    ctx.cov['rule'] = ('one run over several directories holding the same file name with different backup histories; a destination with a second hard link; histories: 3-7 invocations over 1-3 names (prefix-related, backup-looking, non-UTF-8, long) with initial backup sets incl. gaps, '
                        'numbers near 2^64, malformed numbers; kill before/after every mutating call of an overwrite; the backup rename failing with EIO/EPERM/ENAMETOOLONG/ENOSPC; versions of equal length and mtime; --force with an unopenable destination. distinct = distinct (history, driver) or kill point; '
                        'non-trivial = at least one non-none mode')
     ctx.assumptions += ['rename(2) is atomic', 'SIGKILL leaves exactly the effects of completed calls']
